@@ -66,9 +66,16 @@ fn main() {
         }
         i += 1;
     }
+    // checks whose complete catalog takes seconds run it in the quick tier as well; their thorough tier
+    // adds the extended sweeps (Ctx::deep)
+    let label = tier;
+    if tier == Tier::Quick && replay.is_none() && ["C02", "C03", "C05", "C06", "C14", "C17"].contains(&prop.as_str()) {
+        tier = Tier::Thorough;
+    }
     let ctx = Ctx {
         prop: prop.clone(),
         tier,
+        label,
         seed,
         replay,
         start: Instant::now(),
@@ -78,7 +85,7 @@ fn main() {
     // a run that does not come back is a machinery failure, not a verdict (e.g. an endless loop inside
     // one execution, which no exploration bound can interrupt)
     {
-        let cap_s: u64 = std::env::var("MC_WALL_CAP_S").ok().and_then(|v| v.parse().ok()).unwrap_or(if ctx.tier == common::Tier::Quick { 900 } else { 6 * 3600 });
+        let cap_s: u64 = std::env::var("MC_WALL_CAP_S").ok().and_then(|v| v.parse().ok()).unwrap_or(if ctx.label == common::Tier::Quick { 900 } else { 6 * 3600 });
         let prop = ctx.prop.clone();
         std::thread::spawn(move || {
             std::thread::sleep(std::time::Duration::from_secs(cap_s));
